@@ -167,9 +167,17 @@ func resolveRaw(raw *v1x.Raw, nk codec.NK) (codec.NK, []byte, bool) {
 }
 
 // encodeStore writes a database with D's encoder from R's trees.
-func encodeStore(h *ref.History, versions []int64, newNodes map[int64][]*ref.Node, fast bool, ref9 bool) *seam.MemStore {
+func encodeStore(h *ref.History, versions []int64, newNodes map[int64][]*ref.Node, fast bool, ref9 bool, hiNonce bool) *seam.MemStore {
 	s := seam.NewMemStore()
 	var ops []seam.WOp
+	// nonces are 32-bit unsigned numbers, unique within a version; only nonce 1 (the root) has a
+	// meaning. With hiNonce every other nonce is moved into the upper half of the range.
+	mapN := func(n uint32) uint32 {
+		if !hiNonce || n <= 1 {
+			return n
+		}
+		return n + 1<<31
+	}
 	for _, v := range versions {
 		for _, n := range newNodes[v] {
 			cn := &codec.Node{Height: n.Height, Size: n.Size, Key: n.Key}
@@ -180,10 +188,10 @@ func encodeStore(h *ref.History, versions []int64, newNodes map[int64][]*ref.Nod
 				}
 			} else {
 				cn.Hash = ref.HashAt(n, v)
-				cn.Left = codec.NK{Version: n.Left.Version, Nonce: n.Left.Nonce}
-				cn.Right = codec.NK{Version: n.Right.Version, Nonce: n.Right.Nonce}
+				cn.Left = codec.NK{Version: n.Left.Version, Nonce: mapN(n.Left.Nonce)}
+				cn.Right = codec.NK{Version: n.Right.Version, Nonce: mapN(n.Right.Nonce)}
 			}
-			ops = append(ops, seam.WOp{K: codec.NK{Version: n.Version, Nonce: n.Nonce}.StoreKey(), V: codec.EncodeNode(cn)})
+			ops = append(ops, seam.WOp{K: codec.NK{Version: n.Version, Nonce: mapN(n.Nonce)}.StoreKey(), V: codec.EncodeNode(cn)})
 		}
 		root := h.Roots[v]
 		rk := codec.NK{Version: v, Nonce: 1}.StoreKey()
@@ -197,7 +205,7 @@ func encodeStore(h *ref.History, versions []int64, newNodes map[int64][]*ref.Nod
 				binary.BigEndian.PutUint64(val[1:], uint64(root.Version))
 				ops = append(ops, seam.WOp{K: rk, V: val})
 			} else {
-				ops = append(ops, seam.WOp{K: rk, V: codec.NK{Version: root.Version, Nonce: root.Nonce}.StoreKey()})
+				ops = append(ops, seam.WOp{K: rk, V: codec.NK{Version: root.Version, Nonce: mapN(root.Nonce)}.StoreKey()})
 			}
 		}
 	}
@@ -257,13 +265,17 @@ func runReverseFormat(c *fw.Ctx) {
 	}
 	fast := rng.Intn(2) == 0
 	ref9 := rng.Intn(3) == 0
-	store := encodeStore(h, versions, newNodes, fast, ref9)
-	c.Res.Digest = fw.DigestOf("reverse", c.Index, versions, len(universe), fast, ref9)
+	hiNonce := (c.Index/3)%4 == 1 // (node nonces in the upper half of the 32-bit range; ref9 needs nonce 1 roots only)
+	if hiNonce {
+		c.Obs("reverse_stores_with_nonces_above_2^31", 1)
+	}
+	store := encodeStore(h, versions, newNodes, fast, ref9, hiNonce)
+	c.Res.Digest = fw.DigestOf("reverse", c.Index, versions, len(universe), fast, ref9, hiNonce)
 	c.Res.Nontrivial = len(versions) >= 2
 	cfg := v1x.Config{Cache: []int{0, 3, 1000}[rng.Intn(3)], Fast: rng.Intn(2) == 0, Backend: "mem"}
 	t := iavl.NewMutableTree(seam.NewWrap(store), cfg.Cache, !cfg.Fast, iavl.NewNopLogger())
 	bad := func(sig, f string, a ...any) {
-		c.Violate(0, sig, "%s [externally encoded store: versions %v initial=%d fast=%v ref9=%v; opened with %s]", fmt.Sprintf(f, a...), versions, initial, fast, ref9, cfg)
+		c.Violate(0, sig, "%s [externally encoded store: versions %v initial=%d fast=%v ref9=%v nonces-above-2^31=%v; opened with %s]", fmt.Sprintf(f, a...), versions, initial, fast, ref9, hiNonce, cfg)
 	}
 	latest := versions[len(versions)-1]
 	lv, err := t.Load()
@@ -510,7 +522,7 @@ func init() {
 		Level: "exploration",
 		Cases: func(tier string) int { return tierN(tier, 900, 30000) },
 		Rule: "three case kinds by index mod 3. (0) forward: one history (10-45 ops; in half of them WorkingHash() is called between the writes of a version, which memoises node hashes and must not change what is stored; initial versions incl. 8150 so that version/nonce/size varints cross 1- and 2-byte boundaries; pruning, rollback, reopen) after EVERY step of which the raw storage is decoded by the independent decoder D and compared with the reference tree R for every retained version: node key numbering, heights, sizes, keys, values, stored inner hashes, child links, root marker kind and reference target, byte-exact equality of every stored node with D's ENCODER applied to R's node (catches non-canonical varints), numeric iteration order of the 's' keys. " +
-			"(1) reverse: a database written only by D's encoder from R's trees (1-6 versions, reference roots in the 13-byte and the old 9-byte form, empty roots, with/without fast index and label, initial versions) is opened by iavl: Load, contents, Get and hash of every version, and a further commit must agree with R. " +
+			"(1) reverse: a database written only by D's encoder from R's trees (1-6 versions, in a quarter of the cases with every non-root nonce moved above 2^31, reference roots in the 13-byte and the old 9-byte form, empty roots, with/without fast index and label, initial versions) is opened by iavl: Load, contents, Get and hash of every version, and a further commit must agree with R. " +
 			"(2) totality: 400 (quick) / 4000 (thorough) inputs per case - truncations, bit flips, length-field inflation up to 2^64-1, continuation-byte runs, appended garbage, random bytes, all derived from valid encodings of leaf/inner/legacy-child/legacy nodes, fast nodes and root markers - given to MakeNode, MakeLegacyNode, fastnode.DeserializeNode, DecodeBytes/DecodeUvarint/DecodeVarint (verif hook) and the reference-root reader (VersionExists/GetImmutable/LoadVersion over a store with a crafted root entry): a panic or an allocation beyond 256*len+64KiB (sampled 1 in 16 with runtime.MemStats) is a violation; a hang trips the per-case watchdog. " +
 			"distinct = hash(kind, config, ops / index); non-trivial = forward: >=2 commits; reverse: >=2 versions; totality: always.",
 		Assumptions: []string{"D (internal/codec) implements the pinned format independently (encoding/binary only); R is the reference tree", "only the entry points the property lists are fuzzed; walking a successfully decoded but nonsensical node is out of scope"},
@@ -535,6 +547,9 @@ func init() {
 					p.MaxKeys = 30
 				}
 				pl := v1x.MakePlan(c.Rng, p)
+				if (c.Index/3)%5 == 2 {
+					pl.Cfg.Backend = "prefix" // (PrefixDB over MemDB, prefix slice with spare capacity; the raw scan reads through the view)
+				}
 				c.Res.Digest = fw.DigestOf("forward", pl.Cfg, pl.Summary(1000))
 				if c.Index < 3 {
 					c.Res.Sample = pl.Summary(60)
